@@ -796,6 +796,12 @@ func fillStringTableAndSummary(source ingest.FeatureSource, o *Options, strings 
 			for _, member := range feature.(*ingest.RelationFeature).Members {
 				c := summary.Counts.Namespace(member.ID.Namespace)
 				atomic.AddUint64(&c.AreaPaths, 1)
+				if member.ID.Type == b6.FeatureTypePoint {
+					// Relations are recorded against their member points, even those
+					// missing from the source, so a point block needs to exist for
+					// the member's namespace.
+					atomic.AddUint64(&c.PathPoints, 1)
+				}
 			}
 		}
 		return nil
